@@ -20,8 +20,10 @@ func init() {
 			"(2) take-then-promise: every statement that empties a holding container (batch.records = nil, delete(p.unknownTopics, t)) passes exactly the removed records to promiseBatch / doPartition on every path, and the removed entry is the one currently in the map (identity re-check in the asynchronous waiter); " +
 			"(3) the callback field promisedRec.promise is invoked only in finishRecordPromise, exactly once on every path; finishRecordPromise is called only from finishPromises, once per record of the batch; finishPromises is started only with `go` under first==true of a ring push in promiseBatch / promiseRecordBeforeBuf and loops on dropPeek while more; beforeBuf batches are built only in promiseRecordBeforeBuf, which is called only from produce; " +
 			"(4) counter discipline: bufferedRecords/bufferedBytes are incremented only in produce and decremented only in finishRecordPromise on the !beforeBuffering path; in produce every before-buffer promise precedes the increment and every counted hand-off follows it; " +
-			"(5) close sweep: bufferRecord's append path is dominated by the non-blocking cl.ctx.Done() check under recBuf.mu; Client.close calls failBufferedRecords(ErrClientClosed) after ctxCancel() and <-cl.metadone; failBufferedRecords and purgeTopics sweep every partition (the full partitions list) and every unknown-topic entry.",
-		NotDecided:  "that a schedule cannot interleave two individually correct paths into a double completion beyond what the lock/ownership structure excludes; eventual completion (liveness of the promise worker and of sinks).",
+			"(5) close sweep: bufferRecord's append path is dominated by the non-blocking cl.ctx.Done() check under recBuf.mu; Client.close calls failBufferedRecords(ErrClientClosed) after ctxCancel() and <-cl.metadone; failBufferedRecords and purgeTopics sweep every partition (the full partitions list) and every unknown-topic entry; " +
+			"(6) gauge symmetry: the amount finishRecordPromise subtracts from bufferedBytes is a variable whose every definition is userSize() of the promised record located before (not reachable from) the user's promise call, one of them dominating both the promise and the decrement; after the promise nothing in finishRecordPromise calls userSize or reads Record.Key/Value/Headers; produce adds a single-assignment userSize() value; " +
+			"(7) killable rings: ring fields are enumerated from their uses (type-resolved, incl. methods named init); a ring is killable when die() is called on it (or its dead flag is stored) anywhere; every push/pushForce on a killable ring (broker.reqs, brokerCxn.resps) must bind the dead result and, evaluating branch conditions with dead=true/first=false, every path to a return calls the pushed element's completion callback (a func-typed field of the element, or the variable its literal stored there) with a non-nil error; rings never killed (batchPromises, seqResps, callbackRing) may discard dead; a ring that is aliased, copied or whose methods are taken as values is undecided.",
+		NotDecided:  "that a schedule cannot interleave two individually correct paths into a double completion beyond what the lock/ownership structure excludes; eventual completion (liveness of the promise worker and of sinks); that the dead-arm completion of a killable ring carries the right error value (only non-nil-ness is decided) and that the worker side of a killed ring fails the elements already queued (C30); whether a promise's mutation of the record is otherwise observable.",
 		Assumptions: []string{"the promise ring hands each pushed element to exactly one worker invocation (C30)"},
 		Run:         runC01,
 	})
@@ -51,6 +53,7 @@ func runC01(c *Ctx) {
 	c01close(c, m)
 	c01retry(c, m)
 	c01drainKick(c, m)
+	c01round4(c, m)
 }
 
 // hasPromisedRecArg: some argument has type promisedRec.
